@@ -724,7 +724,7 @@ fn dfs(env: &Env, k: u64, d: &mut Delta) {
     };
     let write_size = if (k / 2) % 2 == 0 { 1usize } else { 3000 };
     let max_depth = 14;
-    let budget = env.tier.pick(12_000u64, 60_000);
+    let budget = env.tier.pick3(12_000u64, 60_000, 120);
     let params = json!({"kind": "bounded-dfs", "open": format!("{style:?}"), "iss": [ia, ib], "write_size": write_size, "max_depth": max_depth, "state_budget": budget, "scenario": k});
     let mut root = Node {
         p: Pair::new(style, ia, ib, 1500),
@@ -888,7 +888,7 @@ fn run(env: &Env, k: u64, d: &mut Delta) {
         dfs(env, k / 5, d);
     } else {
         let mut rng = scenario_rng("C03", env.seed, k);
-        for case in 0..env.tier.pick(120, 400) {
+        for case in 0..env.tier.pick3(120, 400, 2) {
             random_schedule(env, k, case, &mut rng, d);
         }
     }
